@@ -13,7 +13,7 @@
 (* on integers:  log2(a) < log2(b) - q/4   <=>   a^4 * 2^q < b^4.                               *)
 (* With q not a multiple of 4 the two sides are never equal, so floating-point rounding cannot *)
 (* change the outcome (sizes are kept <= 40: 40^4 * 2^7 < 2^31).                                *)
-EXTENDS Naturals, Sequences, FiniteSets, SequencesExt, FiniteSetsExt
+EXTENDS Naturals, Sequences, FiniteSets, SequencesExt, FiniteSetsExt, TLC
 
 NumDocs(s) == s.maxdoc - s.ndel
 Clip(p, n) == IF n < p.minlayer THEN p.minlayer ELSE n
@@ -46,6 +46,12 @@ Candidates(p, segs) ==
   LET lv == Levels(p, segs)
   IN {ToSet(lv[k]) : k \in {k \in 1..Len(lv) : LevelMerges(p, segs, lv[k])}}
 
+\* The result depends on the ORDER of the input when segments have the same max_doc: the sort key
+\* is max_doc, the levels are built from num_docs (live documents).  The segment updater passes the
+\* segments in the iteration order of a hash map, i.e. in any order.
+Permute(ss, f) == [i \in 1..Len(ss) |-> ss[f[i]]]
+Orders(ss) == {Permute(ss, f) : f \in Permutations(1..Len(ss))}
+
 \* ------------------------------------------------------------------ the merge loop
 CONSTANTS MaxSegs, SizeSet, Policy
 
@@ -55,49 +61,64 @@ vars == <<segs>>
 SumDocs(ss) == FoldSeq(LAMBDA s, acc : acc + NumDocs(s), 0, ss)
 Init == segs = <<>>
 
+\* the state is the BAG of segments, kept as a sorted sequence; the order in which the updater
+\* lists them is arbitrary: every action that looks at the policy does so for some order
+Canon(ss) ==
+  SetToSortSeq(1..Len(ss), LAMBDA i, j : \/ ss[i].maxdoc < ss[j].maxdoc
+                                         \/ (ss[i].maxdoc = ss[j].maxdoc /\ ss[i].ndel < ss[j].ndel)
+                                         \/ (ss[i].maxdoc = ss[j].maxdoc /\ ss[i].ndel = ss[j].ndel /\ i < j))
+Sorted(ss) == LET o == Canon(ss) IN [k \in 1..Len(ss) |-> ss[o[k]]]
+
 AddSegment ==
   /\ Len(segs) < MaxSegs
-  /\ \E m \in SizeSet : segs' = Append(segs, [maxdoc |-> m, ndel |-> 0])
+  /\ \E m \in SizeSet : segs' = Sorted(Append(segs, [maxdoc |-> m, ndel |-> 0]))
 
 DeleteDocs ==
   \E i \in 1..Len(segs) : \E d \in 1..(segs[i].maxdoc - 1) :
      /\ d > segs[i].ndel
-     /\ segs' = [segs EXCEPT ![i].ndel = d]
+     /\ segs' = Sorted([segs EXCEPT ![i].ndel = d])
 
 Merged(ss, c) == [maxdoc |-> FoldSet(LAMBDA k, acc : acc + NumDocs(ss[k]), 0, c), ndel |-> 0]
 Without(ss, c) ==
   LET keep == SetToSortSeq({k \in 1..Len(ss) : k \notin c}, <) IN [k \in 1..Len(keep) |-> ss[keep[k]]]
 AfterMerge(ss, c) == Append(Without(ss, c), Merged(ss, c))
 
-Merge == \E c \in Candidates(Policy, segs) : segs' = AfterMerge(segs, c)
+Merge == \E o \in Orders(segs) : \E c \in Candidates(Policy, o) : segs' = Sorted(AfterMerge(o, c))
 
 Next == AddSegment \/ DeleteDocs \/ Merge
 Spec == Init /\ [][Next]_vars
-Bound == SumDocs(segs) <= 24
+CONSTANT MaxDocs
+Bound == SumDocs(segs) <= MaxDocs
 
 \* ------------------------------------------------------------------ properties
-Cands == Candidates(Policy, segs)
-CandidatesDisjoint == \A a, b \in Cands : a = b \/ a \cap b = {}
-CandidatesEligible == \A c \in Cands : \A i \in c : Eligible(Policy, segs[i])
+CandsOf(o) == Candidates(Policy, o)
+CandidatesDisjoint == \A o \in Orders(segs) : \A a, b \in CandsOf(o) : a = b \/ a \cap b = {}
+CandidatesEligible == \A o \in Orders(segs) : \A c \in CandsOf(o) : \A i \in c : Eligible(Policy, o[i])
 CandidatesJustified ==
-  \A c \in Cands : Cardinality(c) >= Policy.minseg \/ \E i \in c : DelAbove(Policy, segs[i])
-CandidatesNonEmpty == \A c \in Cands : c # {}
+  \A o \in Orders(segs) : \A c \in CandsOf(o) : Cardinality(c) >= Policy.minseg \/ \E i \in c : DelAbove(Policy, o[i])
+CandidatesNonEmpty == \A o \in Orders(segs) : \A c \in CandsOf(o) : c # {}
 \* every eligible segment is in exactly one level
 LevelsPartition ==
-  LET lv == Levels(Policy, segs)
-      all == {i \in 1..Len(segs) : Eligible(Policy, segs[i])}
-  IN /\ UNION {ToSet(lv[k]) : k \in 1..Len(lv)} = all
-     /\ \A k1, k2 \in 1..Len(lv) : k1 # k2 => ToSet(lv[k1]) \cap ToSet(lv[k2]) = {}
+  \A o \in Orders(segs) :
+    LET lv == Levels(Policy, o)
+        all == {i \in 1..Len(o) : Eligible(Policy, o[i])}
+    IN /\ UNION {ToSet(lv[k]) : k \in 1..Len(lv)} = all
+       /\ \A k1, k2 \in 1..Len(lv) : k1 # k2 => ToSet(lv[k1]) \cap ToSet(lv[k2]) = {}
 \* no member of a level is a level-step below the level's first member
 LevelsTight ==
-  LET lv == Levels(Policy, segs)
-  IN \A k \in 1..Len(lv) : \A j \in 1..Len(lv[k]) :
-       ~Below(Clip(Policy, NumDocs(segs[lv[k][j]])), Clip(Policy, NumDocs(segs[lv[k][1]])), Policy.q)
+  \A o \in Orders(segs) :
+    LET lv == Levels(Policy, o)
+    IN \A k \in 1..Len(lv) : \A j \in 1..Len(lv[k]) :
+         ~Below(Clip(Policy, NumDocs(o[lv[k][j]])), Clip(Policy, NumDocs(o[lv[k][1]])), Policy.q)
+\* the answer depends on the order only through segments with the same max_doc
+OrderMattersOnlyForTies ==
+  (\A i, j \in 1..Len(segs) : i # j => segs[i].maxdoc # segs[j].maxdoc)
+     => \A o1, o2 \in Orders(segs) :
+          {{o1[i] : i \in c} : c \in CandsOf(o1)} = {{o2[i] : i \in c} : c \in CandsOf(o2)}
 
 \* merging conserves the documents and comes to rest (for minseg >= 2): a merge of several
 \* segments lowers their number, a merge of one lowers the number of segments with deletes
-NumWithDeletes == Cardinality({i \in 1..Len(segs) : segs[i].ndel > 0})
-Measure == Len(segs) * (MaxSegs + 1) + NumWithDeletes
-MergeConserves == [][Merge => SumDocs(segs') = SumDocs(segs)]_vars
-MergeProgress == [][Merge => Measure' < Measure]_vars
+MeasureOf(ss) == Len(ss) * (MaxSegs + 1) + Cardinality({i \in 1..Len(ss) : ss[i].ndel > 0})
+MergeConserves == \A o \in Orders(segs) : \A c \in CandsOf(o) : SumDocs(AfterMerge(o, c)) = SumDocs(segs)
+MergeProgress == \A o \in Orders(segs) : \A c \in CandsOf(o) : MeasureOf(AfterMerge(o, c)) < MeasureOf(segs)
 =============================================================================
